@@ -82,6 +82,17 @@ def run(pid, tier, seed, njobs=None):
         for kind in ("map", "set"):
             for rm in removers(kind):
                 jobs.append(boundary_job(rng, "c14-b%05d" % n, kind, cap, rm)); n += 1
+    # overfull bins: 9..14 colliding keys in tables of 16 / 32 / 64 / 128 bins (growth only below 64 bins)
+    for cap in (10, 21, 40, 42, 85):
+        for hname, hv in (("const", 5), ("samebin", None)):
+            for kind in ("map", "set"):
+                nk = 14
+                h = {k: (hv if hv is not None else 3 + 256 * k) for k in range(0, nk + 2)}
+                ops = [{"op": "insert", "k": k, "tag": 1, "n": 3000 + k, "pl": 0} for k in range(1, nk + 1)]
+                ops += [{"op": "insert", "k": 3, "tag": 2, "n": 3100, "pl": 0}, {"op": "remove", "k": 2}]
+                jobs.append({"id": "c14-v%05d" % n, "cfg": "overfull-%s-cap%d" % (hname, cap), "kind": kind, "pin": n % 2 == 0, "scope": "thread",
+                             "hasher": gen.table_hasher(h), "cap": cap, "batch": 0, "prefix": ops, "threads": [], "finals": [],
+                             "check_each": True, "rec": ["snap"]}); n += 1
     nrand = (njobs or (300 if tier == "quick" else 4000))
     hs = [IDENT, ("const", gen.table_hasher({k: 5 for k in range(0, 40)})), ("samebin", gen.table_hasher({k: 3 + 64 * k for k in range(0, 40)}))]
     for i in range(nrand):
@@ -110,6 +121,34 @@ def run(pid, tier, seed, njobs=None):
             sig = "grow:%s:%s" % (fu.get("kind"), fu.get("op"))
         verdict.violation(sig, rid, {"job": job, "event": fu, "diagnosis": {k: d[k] for k in ("matched_events", "total_events")}},
                           "job %s breaks the capacity rules at event %d: %s" % (rid, d["matched_events"] + 1, fu))
+    # concurrent leg: which operation starts a resize (overdue resizes: inserts piled up during a finishing sweep)
+    import c10
+    cjobs = [c10.overdue_job(rng, "c14-o%05d" % i) for i in range(60 if tier == "quick" else 600)]
+    cjobs += [c10.multigen_job(rng, "c14-m%05d" % i) for i in range(30 if tier == "quick" else 300)]
+    cres = lib.run_jobs(cjobs, "c14c", procs=8, timeout=1800)
+    starts, sbyid = [], {}
+    for job, trace, crash in cres:
+        if crash is not None:
+            verdict.violation("crash:%s:%s" % (job["cfg"], crash.get("signal") or crash["rc"]), job["id"], {"job": job, "crash": crash},
+                              "the crate crashed/hung while running job %s (%s)" % (job["id"], str(crash)[:300]))
+            continue
+        if trace["outcome"] != "Done":
+            continue
+        sp = project.growth_start_projection(trace, job)
+        if sp["ev"]:
+            starts.append(sp)
+            sbyid[sp["id"]] = (job, trace, sp)
+    sv = lib.validate_traces("Trace_Capacity", starts, "c14c", workers=4)
+    for rid in sv["rejected"]:
+        job, trace, sp = sbyid[rid]
+        d = lib.diagnose_trace("Trace_Capacity", sp, "c14c")
+        fu = d["first_unmatched"] or {}
+        job2 = dict(job)
+        job2["sched"] = {"kind": "list", "steps": trace["schedule"]}
+        job2.pop("script", None)
+        verdict.violation("start:%s" % fu.get("op"), rid, {"job": job2, "event": fu},
+                          "job %s: a resize was started by thread %s inside %s(): only insert-like operations and reserve / extend grow the table"
+                          % (rid, fu.get("t"), fu.get("op")))
     grows = sum(1 for p in distinct for e in p["ev"] if e["e"] == "op" and e["lena"] > e["lenb"])
     cov = {"states": max(v["states"], 1), "transitions": max(v["states"], 1),
            "traces_validated_against_impl": len(v["accepted"]), "evaluations": len(jobs),
@@ -118,7 +157,10 @@ def run(pid, tier, seed, njobs=None):
                    "threshold-1 followed by every removing operation, and seeded op sequences with identity / constant / same-bin hashers; "
                    "distinct = distinct event sequence; non-trivial = contains a fill event or a table growth" % (cmax - 1),
            "samples": [distinct[-1]["ev"][:4]] if distinct else [], "growth_events": grows,
-           "rejected": len(v["rejected"]),
+           "concurrent_leg": {"jobs": len(cjobs), "runs_with_a_resize_start": len(starts), "resize_starts": sum(len(sp["ev"]) for sp in starts),
+                              "starts_by_op": {op: sum(1 for sp in starts for e in sp["ev"] if e["op"] == op) for op in sorted({e["op"] for sp in starts for e in sp["ev"]})},
+                              "rejected": len(sv["rejected"])},
+           "rejected": len(v["rejected"]) + len(sv["rejected"]),
            "tlc_trace_validation": {"states": v["states"], "distinct": v["distinct"], "wall_s": round(v["wall"], 1)}}
     lib.add_spec_coverage(cov, pid, tier)
     rc = verdict.finish()
